@@ -143,9 +143,35 @@ pub trait SimHooks {
 }
 
 thread_local! {
+    /// deterministic entropy for a whole thread (set at the very start of an
+    /// execution thread, before any HashMap seeds itself): Some(state)
+    static THREAD_RNG: Cell<Option<u64>> = const { Cell::new(None) };
     static HOOKS: RefCell<Option<Box<dyn SimHooks>>> = const { RefCell::new(None) };
     static IN_ENV: Cell<bool> = const { Cell::new(false) };
     static SIM_ON: Cell<bool> = const { Cell::new(false) };
+}
+
+/// From now on every getrandom() of this thread is answered from a fixed
+/// pseudo-random stream (unless a simulation is active, which has its own).
+pub fn deterministic_entropy(seed: u64) {
+    THREAD_RNG.with(|c| c.set(Some(seed | 1)));
+}
+fn thread_rng_fill(buf: &mut [u8]) -> bool {
+    THREAD_RNG
+        .try_with(|c| match c.get() {
+            None => false,
+            Some(mut x) => {
+                for b in buf.iter_mut() {
+                    x ^= x >> 12;
+                    x ^= x << 25;
+                    x ^= x >> 27;
+                    *b = (x.wrapping_mul(0x2545_F491_4F6C_DD1D) >> 56) as u8;
+                }
+                c.set(Some(x));
+                true
+            }
+        })
+        .unwrap_or(false)
 }
 
 pub fn install_hooks(h: Box<dyn SimHooks>) {
@@ -406,6 +432,9 @@ pub unsafe extern "C" fn getrandom(buf: *mut c_void, len: usize, flags: libc::c_
         with_hooks(|h| h.random(s));
         return len as isize;
     }
+    if !buf.is_null() && len > 0 && thread_rng_fill(unsafe { std::slice::from_raw_parts_mut(buf as *mut u8, len) }) {
+        return len as isize;
+    }
     let f = real_fn!(S, c"getrandom", unsafe extern "C" fn(*mut c_void, usize, libc::c_uint) -> isize);
     unsafe { f(buf, len, flags) }
 }
@@ -419,6 +448,9 @@ pub unsafe extern "C" fn syscall(num: libc::c_long, a1: libc::c_long, a2: libc::
     if num == libc::SYS_getrandom && subject_call() && a1 != 0 {
         let s = unsafe { std::slice::from_raw_parts_mut(a1 as *mut u8, a2 as usize) };
         with_hooks(|h| h.random(s));
+        return a2;
+    }
+    if num == libc::SYS_getrandom && a1 != 0 && a2 > 0 && thread_rng_fill(unsafe { std::slice::from_raw_parts_mut(a1 as *mut u8, a2 as usize) }) {
         return a2;
     }
     let f = real_fn!(S, c"syscall", unsafe extern "C" fn(libc::c_long, libc::c_long, libc::c_long, libc::c_long, libc::c_long, libc::c_long, libc::c_long) -> libc::c_long);
